@@ -291,6 +291,25 @@ class Evaluator:
             else:
                 self.block(s.orelse, f)
             return
+        if isinstance(s, ast.While):
+            # a loop whose condition evaluates to a concrete truth value in every round (bounded number of rounds)
+            rounds = 0
+            while True:
+                c = self.ev(s.test, f)
+                if not isinstance(c, (bool, int)):
+                    raise NotEval("loop condition not concrete")
+                if not c:
+                    self.block(s.orelse, f)
+                    return
+                rounds += 1
+                if rounds > 500:
+                    raise NotEval("loop does not end within 500 rounds")
+                self.block(s.body, f)
+                if f.returned:
+                    return
+                flow, f.flow = f.flow, None
+                if flow == "break":
+                    return
         if isinstance(s, ast.Break):
             f.flow = "break"
             return
